@@ -24,11 +24,19 @@ pub fn frame_bytes(name: &str, declared: u32, len: usize) -> Vec<u8> {
         Some((b, p)) => (b, p.parse::<usize>().expect("part")),
         None => (name, 1),
     };
-    let mut v = build_frames(base, declared, len);
-    if part == 0 || part > v.len() {
-        panic!("frame {} has {} parts", name, v.len());
+    // the builders are deterministic: build each message once per process
+    thread_local! {
+        static CACHE: std::cell::RefCell<std::collections::HashMap<String, Vec<Vec<u8>>>> = std::cell::RefCell::new(std::collections::HashMap::new());
     }
-    v.swap_remove(part - 1)
+    let key = format!("{}/{}/{}", base, declared, len);
+    CACHE.with(|c| {
+        let mut c = c.borrow_mut();
+        let v = c.entry(key).or_insert_with(|| build_frames(base, declared, len));
+        if part == 0 || part > v.len() {
+            panic!("frame {} has {} parts", name, v.len());
+        }
+        v[part - 1].clone()
+    })
 }
 
 pub fn catalog(case: &Value, out: &mut Obs) {
